@@ -38,6 +38,8 @@ impl<'a> SimdBestFirstVisitor<u32, SimdAabb> for PointVisitor<'a> {
 pub fn exec(func: &str, a: &mut Args) -> String {
     if func.starts_with("composite2_") { return comp2::exec(func, a); }
     if func.starts_with("composite_") { return comp::exec(func, a); }
+    if func.starts_with("lane3_") || func.starts_with("nl3_") { return lanes3::exec(func, a); }
+    if func.starts_with("lane2_") || func.starts_with("nl2_") { return lanes2::exec(func, a); }
     match func {
         "bf_point" => {
             let (q, cur, _) = c08::replay_cur(a, false);
@@ -67,6 +69,14 @@ pub fn gen(r: &mut Rng, thorough: bool) -> Vec<(String, String)> {
             v.push(("bf_point".to_string(), args));
         }
     }
+    // families added later are generated last so that the earlier case streams stay unchanged
+    v.extend(comp::gen_touch(r, thorough));
+    v.extend(comp::gen_nlcast(r, thorough));
+    v.extend(comp2::gen_touch(r, thorough));
+    v.extend(comp2::gen_nlcast(r, thorough));
+    v.extend(lanes3::gen(r, thorough));
+    v.extend(lanes2::gen(r, thorough));
+    v.extend(comp::gen_pairs(r, thorough));
     v
 }
 
@@ -80,8 +90,8 @@ pub mod comp {
     use super::super::c03::{self, Sh};
     use crate::p3::bounding_volume::Aabb;
     use crate::p3::na::{self, DMatrix};
-    use crate::p3::query::{self, ClosestPoints, DefaultQueryDispatcher, PointQuery, QueryDispatcher, Ray, RayCast, ShapeCastOptions};
-    use crate::p3::shape::{Compound, HeightField, Polyline, Shape, SharedShape, TriMesh};
+    use crate::p3::query::{self, ClosestPoints, DefaultQueryDispatcher, NonlinearRigidMotion, PointQuery, QueryDispatcher, Ray, RayCast, ShapeCastOptions};
+    use crate::p3::shape::{Ball, Compound, HeightField, Polyline, Shape, SharedShape, TriMesh};
     use crate::p3::utils::IsometryOpt;
     use d3::{Isometry, Point, Real, Vector};
 
@@ -138,12 +148,75 @@ pub mod comp {
     }
     fn fcps(k: (u8, f64)) -> String { match k.0 { 0 => "I".into(), 1 => format!("v {}", ff(k.1)), _ => "D".into() } }
 
+    /// every float of the case is a small dyadic rational (multiple of 2^-5, |x| <= 1024): with such inputs (and no
+    /// heightfield, whose vertex abscissae are divided by the cell count) every bounding-box computation of the composite
+    /// paths is exact in f64, so a touching configuration is a touching configuration for the real code as well
+    pub fn lattice_args(a: &Args) -> bool {
+        !a.t.iter().any(|t| *t == "heightfield") && a.t.iter().all(|t| {
+            if t.len() != 16 { return true; }
+            match u64::from_str_radix(t, 16) { Ok(bits) => { let x = f64::from_bits(bits); x.is_finite() && x.abs() <= 1024.0 && (x * 32.0).fract() == 0.0 }, Err(_) => true }
+        })
+    }
     pub fn exec(func: &str, a: &mut Args) -> String {
+        let exact = lattice_args(a);
+        // composite against composite: the pair poses go through two levels of frame changes
+        let pair = a.t.iter().filter(|t| matches!(**t, "compound" | "trimesh" | "polyline" | "heightfield")).count() >= 2;
+        let out = exec0(func, a);
+        let out = if pair { format!("{} ; pair", out) } else { out };
+        if exact { format!("{} ; exact", out) } else { out }
+    }
+    fn exec0(func: &str, a: &mut Args) -> String {
         let c = co(a); let pc = d3::iso(a);
         let gc = dynco(&c);
         let ps = parts(&c, &*gc);
         let d = DefaultQueryDispatcher;
         match func {
+            // ---- nonlinear cast: composite, start pose, other shape, start pose, order flag, then for the composite and for
+            // the other shape `local_center linvel angvel`, then start_time end_time stop_at_penetration
+            "composite_nlcast" => {
+                let x = c03::sh(a); let px = d3::iso(a); let first = a.b();
+                let gx = c03::dynsh(&x);
+                let mc = NonlinearRigidMotion::new(pc, d3::p(a), d3::v(a), d3::v(a));
+                let mx = NonlinearRigidMotion::new(px, d3::p(a), d3::v(a), d3::v(a));
+                let t0 = a.f(); let t1 = a.f(); let stop = a.b();
+                let got = if first { query::cast_shapes_nonlinear(&mc, &*gc, &mx, &*gx, t0, t1, stop) } else { query::cast_shapes_nonlinear(&mx, &*gx, &mc, &*gc, t0, t1, stop) };
+                let got = match got { Ok(v) => v, Err(_) => return "unsupported ; unsupported".into() };
+                // per part, as the visitor does it: the part's motion is the composite's motion with the part pose prepended
+                let tois: Vec<Option<f64>> = ps.iter().map(|(pp, s)| {
+                    let mp = match pp { Some(pp) => mc.prepend(*pp), None => mc };
+                    d.cast_shapes_nonlinear(&mp, &**s, &mx, &*gx, t0, t1, stop).ok().flatten().map(|h| h.time_of_impact) }).collect();
+                let bf = minf(tois.iter().filter_map(|x| *x));
+                // root-cause qualifier: when the composite misses the earliest part, was it the pruning logic or the pruning
+                // PRIMITIVE?  The visitor masks a lane with the real ball-vs-ball nonlinear cast of the lane box's ball against the
+                // other shape's bounding ball; if for some lane on the path from the root to that part this very cast reports no
+                // impact up to the part's own time of impact, the primitive is not conservative (a defect of
+                // `cast_shapes_nonlinear_support_map_support_map`, property C06); otherwise the traversal lost the part
+                let mut qual = String::new();
+                if let Some(tb) = bf {
+                    if got.map(|h| h.time_of_impact > tb + 1.0e-4 * (1.0 + tb)).unwrap_or(true) {
+                        let i = tois.iter().position(|x| *x == Some(tb)).unwrap();
+                        let sph2 = gx.compute_local_bounding_sphere();
+                        let b2 = Ball::new(sph2.radius());
+                        let m2 = mx.prepend_translation(sph2.center.coords);
+                        // every lane on the path root -> leaf of that part, with the ball the visitor builds for it
+                        let qb = gc.as_composite_shape().unwrap().qbvh();
+                        let (nodes, prox) = (qb.raw_nodes(), qb.raw_proxies());
+                        let mut ni = prox[i].node;
+                        for _ in 0..64 {
+                            let nd = &nodes[ni.index as usize];
+                            let bx = nd.simd_aabb.extract(ni.lane as usize);
+                            let b1 = Ball::new((bx.maxs - bx.mins).norm());
+                            let m1 = mc.prepend_translation(na::center(&bx.mins, &bx.maxs).coords);
+                            let rb = query::details::cast_shapes_nonlinear_support_map_support_map(&d, &m1, &b1, &b1, &m2, &b2, &b2, t0, t1,
+                                query::details::NonlinearShapeCastMode::StopAtPenetration).map(|h| h.time_of_impact);
+                            if rb.map(|x| x > tb + 1.0e-4 * (1.0 + tb)).unwrap_or(true) { qual = " ; primmiss".into(); break; }
+                            if ni.index == 0 { break; }
+                            ni = nd.parent;
+                        }
+                    }
+                }
+                format!("{} ; {} ; lim {}{}", fo(got.map(|h| h.time_of_impact)), fo(bf), ff(t1), qual)
+            }
             // ---- pairwise queries: composite, pose, other shape, pose, order flag (1 = composite first)
             "composite_distance" | "composite_it" | "composite_cp" | "composite_contact" | "composite_cast" => {
                 let x = c03::sh(a); let px = d3::iso(a); let first = a.b();
@@ -153,19 +226,43 @@ pub mod comp {
                     if first { (&pc, &*gc, &px, &*gx) } else { (&px, &*gx, &pc, &*gc) };
                 let pos12 = p1.inv_mul(p2);
                 let pos_cx = if first { pos12 } else { pos12.inverse() };
+                // composite vs composite: the other shape is expanded into ITS parts as well, the brute force is the double
+                // reduction over all (part, other part) pairs; for a simple other shape there is one "part" with no pose
+                let xps: Vec<(Option<Isometry<Real>>, Box<dyn Shape>)> = match &x {
+                    Sh::Compound(qs) => qs.iter().map(|(m, s)| (Some(*m), c03::dynsh(s))).collect(),
+                    Sh::TriMesh(..) => gx.as_trimesh().unwrap().triangles().map(|t| (None, Box::new(t) as Box<dyn Shape>)).collect(),
+                    _ => vec![(None, c03::dynsh(&x))] };
+                // When the other shape is itself composite the real code, having reached part i of `c`, calls the query on
+                // (part i, X); the dispatcher sees a composite SECOND argument, swaps the roles and reaches the parts of X with the
+                // pair in the order (X-part j, part i).  The brute force calls the pair query in that same order and frame
+                // (an order-asymmetry of a pair query is a matter for C02/C03/C06, not a pruning fault).
+                // (With X first the outer loop runs over the parts of X, the inner swap brings the pair back to (part i, X-part j).)
+                let xcomp = matches!(x, Sh::Compound(_) | Sh::TriMesh(..));
+                let nested = first && xcomp;
+                // With X (composite) first the outer loop runs over the parts of X, the inner call swaps and reaches the parts of
+                // `c`: the pair comes back in the order (part i, X-part j), its pose is composed as the real code composes it:
+                // `pose1 = q_j⁻¹·pos12`, then `pp_i⁻¹·pose1⁻¹`.
+                let nested2 = !first && xcomp;
+                // (pose of the second shape in the first one's frame, first, second, pose of part i, pose of X-part j, outer pose)
+                let pairs: Vec<(Isometry<Real>, &dyn Shape, &dyn Shape, Option<Isometry<Real>>, Option<Isometry<Real>>, Isometry<Real>)> = ps.iter().flat_map(|(pp, s)| {
+                    let m0 = pp.as_ref().inv_mul(&pos_cx);
+                    xps.iter().map(move |(q, sx)|
+                        if nested { (q.as_ref().inv_mul(&m0.inverse()), &**sx, &**s, *pp, *q, m0) }
+                        else if nested2 { let pose1 = q.as_ref().inv_mul(&pos12); (pp.as_ref().inv_mul(&pose1.inverse()), &**s, &**sx, *pp, *q, pose1) }
+                        else { (match q { Some(q) => m0 * q, None => m0 }, &**s, &**sx, *pp, *q, m0) }) }).collect();
                 match func {
                     "composite_distance" => {
                         let got = match query::distance(p1, g1, p2, g2) { Ok(v) => v, Err(_) => return "unsupported ; unsupported".into() };
-                        let bf = minf(ps.iter().filter_map(|(pp, s)| d.distance(&pp.as_ref().inv_mul(&pos_cx), &**s, &*gx).ok()));
+                        let bf = minf(pairs.iter().filter_map(|(m, s, sx, ..)| d.distance(m, *s, *sx).ok()));
                         format!("v {} ; {}", ff(got), fo(bf))
                     }
                     "composite_it" => {
                         let got = match query::intersection_test(p1, g1, p2, g2) { Ok(v) => v, Err(_) => return "unsupported ; unsupported".into() };
-                        let bf = ps.iter().any(|(pp, s)| d.intersection_test(&pp.as_ref().inv_mul(&pos_cx), &**s, &*gx).unwrap_or(false));
+                        let bf = pairs.iter().any(|(m, s, sx, ..)| d.intersection_test(m, *s, *sx).unwrap_or(false));
                         // qualifier: signed gap of the closest / deepest part (a verdict may legitimately differ only when the shapes merely touch)
-                        let tie = minf(ps.iter().filter_map(|(pp, s)| d.contact(&pp.as_ref().inv_mul(&pos_cx), &**s, &*gx, 1.0).ok().flatten().map(|c| c.dist)));
+                        let tie = minf(pairs.iter().filter_map(|(m, s, sx, ..)| d.contact(m, *s, *sx, 1.0).ok().flatten().map(|c| c.dist)));
                         // the per-part verdicts must agree among themselves (C02); if they do not, say so instead of blaming the reduction
-                        let dmin = minf(ps.iter().filter_map(|(pp, s)| d.distance(&pp.as_ref().inv_mul(&pos_cx), &**s, &*gx).ok()));
+                        let dmin = minf(pairs.iter().filter_map(|(m, s, sx, ..)| d.distance(m, *s, *sx).ok()));
                         if bf && !got && dmin.map(|x| x > 1.0e-9).unwrap_or(false) { return format!("{} ; X ; tie {}", b(got), fo(dmin)); }
                         format!("{} ; {} ; tie {}", b(got), b(bf), fo(tie))
                     }
@@ -175,10 +272,9 @@ pub mod comp {
                         // the entry point returns world-space points
                         let gk = fcp(&got, &Isometry::identity());
                         let mut best: (u8, f64) = (2, 0.0);
-                        for (pp, s) in &ps {
-                            let m = pp.as_ref().inv_mul(&pos_cx);
-                            if let Ok(r) = d.closest_points(&m, &**s, &*gx, margin) {
-                                let k = fcp(&r, &m);
+                        for (m, s, sx, ..) in &pairs {
+                            if let Ok(r) = d.closest_points(m, *s, *sx, margin) {
+                                let k = fcp(&r, m);
                                 if k.0 == 0 { best = (0, 0.0); break; }
                                 if k.0 == 1 && (best.0 == 2 || k.1 < best.1) { best = k; }
                             }
@@ -188,7 +284,7 @@ pub mod comp {
                     "composite_contact" => {
                         let pred = a.f();
                         let got = match query::contact(p1, g1, p2, g2, pred) { Ok(v) => v, Err(_) => return "unsupported ; unsupported".into() };
-                        let bf = minf(ps.iter().filter_map(|(pp, s)| d.contact(&pp.as_ref().inv_mul(&pos_cx), &**s, &*gx, pred).ok().flatten().map(|c| c.dist)));
+                        let bf = minf(pairs.iter().filter_map(|(m, s, sx, ..)| d.contact(m, *s, *sx, pred).ok().flatten().map(|c| c.dist)));
                         format!("{} ; {} ; lim {}", fo(got.map(|c| c.dist)), fo(bf), ff(pred))
                     }
                     _ => {
@@ -199,14 +295,51 @@ pub mod comp {
                         let got = match d.cast_shapes(&pos12, &vel12, g1, g2, opts) { Ok(v) => v, Err(_) => return "unsupported ; unsupported".into() };
                         let vel_cx = if first { vel12 } else { -pos12.inverse_transform_vector(&vel12) };
                         let mut pi = 0;
-                        let bf = minf(ps.iter().filter_map(|(pp, s)| {
-                            let r = match pp { Some(pp) => d.cast_shapes(&pp.inv_mul(&pos_cx), &pp.inverse_transform_vector(&vel_cx), &**s, &*gx, opts),
-                                               None => d.cast_shapes(&pos_cx, &vel_cx, &**s, &*gx, opts) };
-                            if std::env::var("VERIF_DBG").is_ok() { if let Ok(Some(h)) = &r { eprintln!("part {} {:?} toi {}", pi, s.as_triangle(), h.time_of_impact); } }
+                        let mut best_pair: Option<(f64, Isometry<Real>, Vector<Real>, usize)> = None;
+                        let bf = minf(pairs.iter().enumerate().filter_map(|(idx, (m, s, sx, pp, q, m0))| {
+                            let v0 = match pp { Some(pp) => pp.inverse_transform_vector(&vel_cx), None => vel_cx };
+                            let v = if nested { let vin = -m0.inverse_transform_vector(&v0); match q { Some(q) => q.inverse_transform_vector(&vin), None => vin } }
+                                    else if nested2 { let v1 = match q { Some(q) => q.inverse_transform_vector(&vel12), None => vel12 }; let v2 = -m0.inverse_transform_vector(&v1);
+                                                      match pp { Some(pp) => pp.inverse_transform_vector(&v2), None => v2 } }
+                                    else { v0 };
+                            let r = d.cast_shapes(m, &v, *s, *sx, opts);
+                            if std::env::var("VERIF_DBG").is_ok() { if let Ok(Some(h)) = &r { eprintln!("part {} {:?} toi {} m {:?} v {:?} a {:?} b {:?}", pi, s.as_triangle(), h.time_of_impact, m, v, s.shape_type(), sx.shape_type()); } else { eprintln!("pair {} none m {:?} v {:?} a {:?} b {:?}", pi, m, v, s.shape_type(), sx.shape_type()); } }
                             pi += 1;
-                            r.ok().flatten().map(|h| h.time_of_impact) }));
+                            let t = r.ok().flatten().map(|h| h.time_of_impact);
+                            if let Some(t) = t { if best_pair.map(|b| t < b.0).unwrap_or(true) { best_pair = Some((t, *m, v, idx)); } }
+                            t }));
+                        // tie qualifier: the composite misses the earliest pair although the pair's own cast reports an impact - is that
+                        // impact a GRAZING one?  The two parts' boxes (second one moving with the pair's velocity) overlap during
+                        // [t_in, t_out]; when that interval is empty or a single instant the pair merely grazes (corner on corner, exactly
+                        // or within rounding) and the conservative box test of the visitor sits on the same knife edge
+                        let mut graze = "";
+                        if let Some((tb, m, v, idx)) = best_pair {
+                            if got.map(|h| h.time_of_impact > tb + 1.0e-4 * (1.0 + tb)).unwrap_or(true) {
+                                let (a_, b_) = (pairs[idx].1, pairs[idx].2);
+                                let (ba, bb) = (a_.compute_local_aabb(), b_.compute_aabb(&m));
+                                let (mut tin, mut tout) = (f64::NEG_INFINITY, f64::INFINITY);
+                                for k in 0..3 {
+                                    if v[k] == 0.0 { if bb.maxs[k] < ba.mins[k] || ba.maxs[k] < bb.mins[k] { tout = f64::NEG_INFINITY; } }
+                                    else { let (t1, t2) = ((ba.mins[k] - bb.maxs[k]) / v[k], (ba.maxs[k] - bb.mins[k]) / v[k]);
+                                           tin = tin.max(t1.min(t2)); tout = tout.min(t1.max(t2)); }
+                                }
+                                if tout - tin <= 1.0e-9 * (1.0 + tb.abs()) { graze = " ; graze"; }
+                            }
+                        }
+                        if std::env::var("VERIF_DBG").is_ok() && nested2 { for (j, (q, sx)) in xps.iter().enumerate() {
+                            let pose1 = q.as_ref().inv_mul(&pos12); let v1 = match q { Some(q) => q.inverse_transform_vector(&vel12), None => vel12 };
+                            eprintln!("X-part {} vs c: {:?}  (pose1 {:?} v1 {:?})", j, d.cast_shapes(&pose1, &v1, &**sx, &*gc, opts).map(|h| h.map(|h| (h.time_of_impact, h.status))), pose1, v1);
+                            let p2 = pose1.inverse(); let v2 = -pose1.inverse_transform_vector(&v1);
+                            eprintln!("   swapped c vs X-part {}: {:?} aabb2 {:?}", j, d.cast_shapes(&p2, &v2, &*gc, &**sx, opts).map(|h| h.map(|h| (h.time_of_impact, h.status))), sx.compute_aabb(&p2));
+                            for (k, (pp, s)) in ps.iter().enumerate() { let m = pp.as_ref().inv_mul(&p2); let v = match pp { Some(pp) => pp.inverse_transform_vector(&v2), None => v2 };
+                                eprintln!("      seg {} : {:?} aabb1 {:?}", k, d.cast_shapes(&m, &v, &**s, &**sx, opts).map(|h| h.map(|h| (h.time_of_impact, h.status))), s.compute_local_aabb()); } } }
+                        if std::env::var("VERIF_DBG").is_ok() { for (k, (pp, s)) in ps.iter().enumerate() {
+                            let m0 = pp.as_ref().inv_mul(&pos_cx); let v0 = match pp { Some(pp) => pp.inverse_transform_vector(&vel_cx), None => vel_cx };
+                            eprintln!("outer part {} vs X: {:?}", k, d.cast_shapes(&m0, &v0, &**s, &*gx, opts).map(|h| h.map(|h| (h.time_of_impact, h.status))));
+                            for (q, sx) in &xps { let m = match q { Some(q) => m0 * q, None => m0 };
+                                eprintln!("    pair: {:?} dist {:?}", d.cast_shapes(&m, &v0, &**s, &**sx, opts).map(|h| h.map(|h| (h.time_of_impact, h.status))), d.distance(&m, &**s, &**sx)); } } }
                         if std::env::var("VERIF_DBG").is_ok() { eprintln!("pos_cx {:?} vel_cx {:?} aabb_x {:?} aabb_c {:?}", pos_cx, vel_cx, gx.compute_aabb(&pos_cx), gc.compute_local_aabb()); }
-                        format!("{} ; {} ; lim {}", fo(got.map(|h| h.time_of_impact)), fo(bf), ff(max_toi))
+                        format!("{} ; {} ; lim {}{}", fo(got.map(|h| h.time_of_impact)), fo(bf), ff(max_toi), graze)
                     }
                 }
             }
@@ -216,7 +349,9 @@ pub mod comp {
                 let got_n = gc.cast_ray_and_get_normal(&pc, &ray, max_toi, solid).map(|i| i.time_of_impact);
                 let ls = ray.inverse_transform_by(&pc);
                 let bf = minf(ps.iter().filter_map(|(pp, s)| match pp { Some(pp) => s.cast_ray(pp, &ls, max_toi, solid), None => s.cast_local_ray(&ls, max_toi, solid) }));
-                format!("{} {} ; {} {} ; lim {}", fo(got), fo(got_n), fo(bf), fo(bf), ff(max_toi))
+                // like with like: the normal-returning composite visitor calls the parts' `cast_ray_and_get_normal`
+                let bf_n = minf(ps.iter().filter_map(|(pp, s)| match pp { Some(pp) => s.cast_ray_and_get_normal(pp, &ls, max_toi, solid), None => s.cast_local_ray_and_get_normal(&ls, max_toi, solid) }.map(|i| i.time_of_impact)));
+                format!("{} {} ; {} {} ; lim {}", fo(got), fo(got_n), fo(bf), fo(bf_n), ff(max_toi))
             }
             "composite_point" => {
                 let pt = d3::p(a); let solid = a.b();
@@ -280,11 +415,22 @@ pub mod comp {
         }
     }
     /// rows / grids of parts with rotated part poses, duplicated and degenerate parts
-    fn gen_compound(r: &mut Rng, lat: bool) -> Co {
+    /// rotations whose quaternion has dyadic coefficients (identity, half turns about the axes, thirds of a turn about the
+    /// cube diagonals): they map lattice points to lattice points without rounding
+    pub fn qexact(r: &mut Rng) -> [f64; 4] {
+        match r.below(3) {
+            0 => [0.0, 0.0, 0.0, 1.0],
+            1 => { let mut q = [0.0; 4]; q[r.below(4) as usize] = if r.bool() { 1.0 } else { -1.0 }; q }
+            _ => { let mut q = [0.5; 4]; for x in q.iter_mut() { if r.bool() { *x = -*x; } } q }
+        }
+    }
+    fn uq(q: [f64; 4]) -> na::UnitQuaternion<Real> { na::Unit::new_unchecked(na::Quaternion::new(q[3], q[0], q[1], q[2])) }
+    fn gen_compound(r: &mut Rng, lat: bool) -> Co { gen_compound_x(r, lat, false) }
+    fn gen_compound_x(r: &mut Rng, lat: bool, exact: bool) -> Co {
         let n = 5 + r.below(36) as usize;
         let kind = r.below(6);
         let layout = r.below(4);
-        let pitch = *r.pick(&[1.5, 2.0, 3.0]);
+        let pitch = if exact { *r.pick(&[1.0, 1.5, 2.0]) } else { *r.pick(&[1.5, 2.0, 3.0]) };
         let mut ps = Vec::new();
         for k in 0..n {
             let t = match layout {
@@ -293,7 +439,7 @@ pub mod comp {
                 2 => Vector::new(pitch * (k % 3) as f64, pitch * ((k / 3) % 3) as f64, pitch * (k / 9) as f64),
                 _ => d3::gen_v(r, lat, 10.0),
             };
-            let ql = lat || r.bool(); let q = d3::gen_quat(r, ql);
+            let ql = lat || r.bool(); let q = if exact { qexact(r) } else { d3::gen_quat(r, ql) };
             let m = Isometry::from_parts(na::Translation3::from(t), na::Unit::new_unchecked(na::Quaternion::new(q[3], q[0], q[1], q[2])));
             let kk = if kind == 5 { r.below(5) } else { kind }; let s = unit_parts(r, lat, kk);
             ps.push((s, m));
@@ -371,6 +517,187 @@ pub mod comp {
         Isometry::from_parts(na::Translation3::from(anchor + off + far), na::Unit::new_unchecked(na::Quaternion::new(q[3], q[0], q[1], q[2])))
     }
 
+    // ---------------------------------------------------------------- exact touching configurations (lattice)
+    fn part_boxes(c: &Co) -> Vec<Aabb> {
+        let g = dynco(c);
+        parts(c, &*g).iter().map(|(pp, s)| match pp { Some(pp) => s.compute_aabb(pp), None => s.compute_local_aabb() }).collect()
+    }
+    fn gen_touch_composite(r: &mut Rng) -> Co {
+        match r.below(5) { 0 | 1 | 2 => gen_compound_x(r, true, true), 3 => gen_grid_mesh(r, true), _ => gen_polyline(r, true) }
+    }
+    fn gen_touch_other(r: &mut Rng) -> Sh {
+        match r.below(6) {
+            0 => Sh::Ball(*r.pick(&[0.25, 0.5, 1.0])),
+            1 => Sh::Cuboid(Vector::new(*r.pick(&[0.5, 1.0, 3.0]), *r.pick(&[0.25, 0.5]), *r.pick(&[0.5, 2.0]))),
+            2 => { let mut p = Point::origin(); p[r.below(3) as usize] = *r.pick(&[0.5, 2.0]); Sh::Capsule(Point::from(-p.coords), p, *r.pick(&[0.25, 0.5])) }
+            3 => c03::gen_shape(r, true, &[4]),
+            4 => c03::gen_shape(r, true, &[5]),
+            _ => Sh::Capsule(Point::new(0.5, 0.0, 0.25), Point::new(1.5, 1.0, 0.25), 0.25),     // off-centre
+        }
+    }
+    /// pose of `x` (in the composite's frame) such that its box, loosened by `gap`, touches the box `pb` of a part exactly:
+    /// on the `plus`/minus side of axis `k`, overlapping it along the other axes
+    fn touch_pose(r: &mut Rng, pb: &Aabb, x: &Sh, gap: f64, k: usize, plus: bool) -> Isometry<Real> {
+        let rot = uq(qexact(r));
+        let xb = c03::dynsh(x).compute_aabb(&Isometry::from_parts(na::Translation3::identity(), rot));
+        let mut t = Vector::zeros();
+        for j in 0..3 {
+            t[j] = if j == k { if plus { pb.maxs[j] + gap - xb.mins[j] } else { pb.mins[j] - gap - xb.maxs[j] } }
+                   else { (pb.mins[j] + pb.maxs[j]) * 0.5 - (xb.mins[j] + xb.maxs[j]) * 0.5 + *r.pick(&[-0.5, 0.0, 0.0, 0.25]) };
+        }
+        Isometry::from_parts(na::Translation3::from(t), rot)
+    }
+    fn exact_world(r: &mut Rng) -> Isometry<Real> {
+        if r.bool() { Isometry::identity() } else { Isometry::from_parts(na::Translation3::from(d3::gen_v(r, true, 8.0)), uq(qexact(r))) }
+    }
+    pub fn gen_touch(r: &mut Rng, thorough: bool) -> Vec<(String, String)> {
+        let mut v = Vec::new();
+        let n = if thorough { 500 } else { 60 };
+        for _ in 0..n {
+            let c = gen_touch_composite(r);
+            let world = exact_world(r);
+            let hc = format!("{} {}", hco(&c), d3::hiso(&world));
+            let boxes = part_boxes(&c);
+            for _ in 0..2 {
+                let x = gen_touch_other(r);
+                let gap = *r.pick(&[0.0, 0.0, 0.25, 0.5]);
+                let pb = boxes[r.below(boxes.len() as u64) as usize];
+                let k = r.below(3) as usize; let plus = r.bool();
+                let rel = touch_pose(r, &pb, &x, gap, k, plus);
+                let hx_ = format!("{} {}", c03::hsh(&x), d3::hiso(&(world * rel)));
+                for first in [true, false] {
+                    let base = format!("{} {} {}", hc, hx_, b(first));
+                    v.push(("composite_distance".into(), base.clone()));
+                    v.push(("composite_it".into(), base.clone()));
+                    v.push(("composite_cp".into(), format!("{} {}", base, hx(gap))));
+                    v.push(("composite_contact".into(), format!("{} {}", base, hx(gap))));
+                    // casts: start `back` behind the touching pose and approach along the axis, or slide along the part
+                    let mut e = Vector::zeros(); e[k] = if plus { 1.0 } else { -1.0 };
+                    let back = *r.pick(&[0.0, 1.0, 2.0]);
+                    let start = Isometry::from_parts(na::Translation3::from(rel.translation.vector + e * back), rel.rotation);
+                    let mut vel = if r.below(3) == 0 { let mut s = Vector::zeros(); s[(k + 1) % 3] = 1.0; s } else { -e * *r.pick(&[0.5, 1.0, 2.0]) };
+                    if !first { vel = -(start.inverse_transform_vector(&vel)); }
+                    let hs_ = format!("{} {} {} {}", hc, c03::hsh(&x), d3::hiso(&(world * start)), b(first));
+                    // `composite_cast` takes the velocity in the frame of shape 1: the composite's frame (first) or x's frame
+                    v.push(("composite_cast".into(), format!("{} {} {} {} {}", hs_, d3::hv(&vel), hx(*r.pick(&[1.0, 2.0, 1.0e3])), hx(if r.bool() { gap } else { 0.0 }), b(r.bool()))));
+                }
+            }
+            for _ in 0..3 {
+                let pb = boxes[r.below(boxes.len() as u64) as usize];
+                let k = r.below(3) as usize; let plus = r.bool();
+                let ctr = na::center(&pb.mins, &pb.maxs);
+                // points on faces / edges / corners of a part's box
+                let mut pt = ctr; for j in 0..3 { pt[j] = *r.pick(&[pb.mins[j], ctr[j], pb.maxs[j]]); }
+                v.push(("composite_point".into(), format!("{} {} {}", hc, d3::hp(&(world * pt)), b(r.bool()))));
+                // query boxes that touch the part's box exactly on one side of one axis
+                let he = Vector::new(*r.pick(&[0.25, 0.5, 1.0, 4.0]), *r.pick(&[0.25, 0.5, 1.0, 4.0]), *r.pick(&[0.25, 0.5, 1.0, 4.0]));
+                let mut cq = ctr; for j in 0..3 { if j != k { cq[j] += *r.pick(&[-0.5, 0.0, 0.25]); } }
+                cq[k] = if plus { pb.maxs[k] + he[k] } else { pb.mins[k] - he[k] };
+                v.push(("composite_aabb".into(), format!("{} {} {}", hc, d3::hp(&(cq - he)), d3::hp(&(cq + he)))));
+                // rays grazing a face of the box, and rays that reach the box exactly at max_toi
+                let j = (k + 1 + r.below(2) as usize) % 3;
+                let mut org = ctr; org[k] = if plus { pb.maxs[k] } else { pb.mins[k] }; org[j] = pb.mins[j] - 2.0;
+                let mut dir = Vector::zeros(); dir[j] = *r.pick(&[0.5, 1.0, 2.0]);
+                if r.bool() { org = ctr; org[k] = if plus { pb.maxs[k] + 2.0 } else { pb.mins[k] - 2.0 }; dir = Vector::zeros(); dir[k] = if plus { -1.0 } else { 1.0 }; }
+                v.push(("composite_ray".into(), format!("{} {} {} {} {}", hc, d3::hp(&(world * org)), d3::hv(&(world * dir)), hx(*r.pick(&[2.0, 4.0, 1.0e3])), b(r.bool()))));
+            }
+        }
+        v
+    }
+
+    // ---------------------------------------------------------------- composite against composite
+    /// a small composite as the OTHER shape (2-6 parts / 12 triangles); `exact`: dyadic poses only
+    fn gen_other_composite(r: &mut Rng, lat: bool, exact: bool) -> Sh {
+        if r.below(4) == 0 {
+            use crate::p3::shape::Cuboid;
+            let (vs, is) = Cuboid::new(Vector::new(*r.pick(&[0.5, 1.0]), *r.pick(&[0.25, 0.5]), *r.pick(&[0.5, 2.0]))).to_trimesh();
+            Sh::TriMesh(0, vs, is)
+        } else {
+            let n = 2 + r.below(5) as usize;
+            Sh::Compound((0..n).map(|_| {
+                let t = if exact || lat { Vector::new(*r.pick(&[-1.0, 0.0, 0.5, 1.5]), *r.pick(&[-0.5, 0.0, 1.0]), *r.pick(&[-1.0, 0.0, 0.5])) } else { d3::gen_v(r, false, 1.5) };
+                let q = if exact { qexact(r) } else { d3::gen_quat(r, lat) };
+                let kind = r.below(4);
+                (Isometry::from_parts(na::Translation3::from(t), uq(q)), unit_parts(r, true, kind)) }).collect())
+        }
+    }
+    pub fn gen_pairs(r: &mut Rng, thorough: bool) -> Vec<(String, String)> {
+        let mut v = Vec::new();
+        let n = if thorough { 250 } else { 30 };
+        for it in 0..n {
+            let lat = it % 2 == 0; let exact = it % 4 == 0;
+            let c = if exact { gen_touch_composite(r) } else { match it % 3 { 0 => gen_compound(r, lat), 1 => gen_grid_mesh(r, lat), _ => gen_polyline(r, lat) } };
+            let world = if exact { exact_world(r) } else if r.below(3) == 0 { Isometry::identity() } else { d3::gen_iso(r, lat, 20.0) };
+            let hc = format!("{} {}", hco(&c), d3::hiso(&world));
+            let boxes = part_boxes(&c);
+            for _ in 0..2 {
+                let x = gen_other_composite(r, lat, exact);
+                let gap = *r.pick(&[0.0, 0.0, 0.25, 0.5]);
+                let rel = if exact { let pb = boxes[r.below(boxes.len() as u64) as usize]; let k = r.below(3) as usize; let plus = r.bool(); touch_pose(r, &pb, &x, gap, k, plus) } else { gen_rel_pose(r, lat, &c) };
+                let hx_ = format!("{} {}", c03::hsh(&x), d3::hiso(&(world * rel)));
+                for first in [true, false] {
+                    let base = format!("{} {} {}", hc, hx_, b(first));
+                    v.push(("composite_distance".into(), base.clone()));
+                    v.push(("composite_it".into(), base.clone()));
+                    let par = if exact { gap } else { c03::gen_param(r, lat) };
+                    v.push(("composite_cp".into(), format!("{} {}", base, hx(par))));
+                    v.push(("composite_contact".into(), format!("{} {}", base, hx(par))));
+                    let vel = if rel.translation.vector.norm() > 1e-3 && r.bool() { -rel.translation.vector.normalize() * r.pos_extent(true) } else { d3::gen_v(r, true, 3.0) };
+                    let vel = if first { vel } else { -(rel.inverse_transform_vector(&vel)) };
+                    v.push(("composite_cast".into(), format!("{} {} {} {} {}", base, d3::hv(&vel), hx(*r.pick(&[2.0, 1.0e3])), hx(0.0), b(r.bool()))));
+                }
+            }
+        }
+        v
+    }
+
+    // ---------------------------------------------------------------- nonlinear casts
+    pub fn gen_nlcast(r: &mut Rng, thorough: bool) -> Vec<(String, String)> {
+        let mut v = Vec::new();
+        let n = if thorough { 400 } else { 50 };
+        for it in 0..n {
+            let lat = it % 2 == 0;
+            let c = match it % 5 { 0 | 1 => gen_compound(r, lat), 2 => gen_grid_mesh(r, lat), 3 => gen_compound_x(r, true, true), _ => gen_polyline(r, lat) };
+            let world = if r.below(3) == 0 { Isometry::identity() } else { d3::gen_iso(r, lat, 20.0) };
+            let hc = format!("{} {}", hco(&c), d3::hiso(&world));
+            let boxes = part_boxes(&c);
+            for _ in 0..2 {
+                // the other shape: mostly shapes whose bounding sphere is NOT centred at their local origin
+                let x = match r.below(6) { 0 => Sh::Ball(*r.pick(&[0.25, 0.5])), 1 => Sh::Cuboid(d3::gen_he(r, true) * 0.5),
+                                           2 => Sh::Capsule(Point::new(1.0, 0.5, 0.0), Point::new(2.0, 0.5, 0.5), 0.25),
+                                           3 => { let o = d3::gen_v(r, true, 2.0); Sh::Triangle(Point::from(o), Point::from(o + Vector::new(0.5, 0.0, 0.0)), Point::from(o + Vector::new(0.0, 0.5, 0.25))) }
+                                           4 => { let o = d3::gen_v(r, true, 2.0); Sh::Segment(Point::from(o), Point::from(o + Vector::new(0.25, 0.5, 0.0))) }
+                                           _ => c03::gen_shape(r, lat, &[3, 4, 5]) };
+                let gx = c03::dynsh(&x);
+                // start pose: rotated (2 of 3), placed so that a point of x (its local box centre) sits at `dist` from a part
+                let q = if r.below(3) == 0 { [0.0, 0.0, 0.0, 1.0] } else { d3::gen_quat(r, lat) };
+                let rot = uq(q);
+                let pb = boxes[r.below(boxes.len() as u64) as usize];
+                let ctr = na::center(&pb.mins, &pb.maxs);
+                let xb = gx.compute_local_aabb(); let xc = na::center(&xb.mins, &xb.maxs);
+                let mut dirv = d3::gen_v(r, lat, 1.0); if dirv.norm() < 1e-3 { dirv = Vector::new(0.0, 1.0, 0.0); }
+                let dirv = dirv.normalize();
+                let dist = *r.pick(&[2.0, 3.0, 5.0]);
+                let t = ctr.coords + dirv * dist - rot * xc.coords;
+                let rel = Isometry::from_parts(na::Translation3::from(t), rot);
+                let px = world * rel;
+                let t1: f64 = *r.pick(&[1.0, 2.0, 10.0]);
+                // x moves towards the part (world frame) and spins; the composite stands still, translates or spins slowly
+                let linx = world * (-dirv * (dist / *r.pick(&[0.5, 1.0, 1.5])) / t1.min(2.0)) + d3::gen_v(r, lat, 0.1);
+                let angx = if r.bool() { Vector::zeros() } else { d3::gen_v(r, lat, 1.0) * 0.25 };
+                let lcx = if r.bool() { Point::origin() } else { xc };
+                let (linc, angc, lcc) = match r.below(3) { 0 => (Vector::zeros(), Vector::zeros(), Point::origin()),
+                    1 => (d3::gen_v(r, lat, 0.5), Vector::zeros(), Point::origin()),
+                    _ => (d3::gen_v(r, lat, 0.25), d3::gen_v(r, lat, 1.0) * 0.0625, ctr) };
+                for first in [true, false] {
+                    v.push(("composite_nlcast".into(), format!("{} {} {} {} {} {} {} {} {} {} {} {} {}", hc, c03::hsh(&x), d3::hiso(&px), b(first),
+                        d3::hp(&lcc), d3::hv(&linc), d3::hv(&angc), d3::hp(&lcx), d3::hv(&linx), d3::hv(&angx), hx(0.0), hx(t1), b(r.bool()))));
+                }
+            }
+        }
+        v
+    }
+
     pub fn gen(r: &mut Rng, thorough: bool) -> Vec<(String, String)> {
         let mut v = Vec::new();
         let n = if thorough { 1200 } else { 150 };
@@ -429,7 +756,8 @@ pub mod comp {
 pub mod comp2 {
     use crate::util::*;
     use crate::p2::na::{self, DVector};
-    use crate::p2::query::{self, ClosestPoints, DefaultQueryDispatcher, PointQuery, QueryDispatcher, Ray, RayCast, ShapeCastOptions};
+    use crate::p2::bounding_volume::{Aabb, BoundingVolume};
+    use crate::p2::query::{self, ClosestPoints, DefaultQueryDispatcher, NonlinearRigidMotion, PointQuery, QueryDispatcher, Ray, RayCast, ShapeCastOptions};
     use crate::p2::shape::{Ball, Capsule, Compound, Cuboid, HeightField, Polyline, Segment, Shape, SharedShape, Triangle};
     use crate::p2::utils::IsometryOpt;
     use d2::{Isometry, Point, Real, Vector};
@@ -503,11 +831,70 @@ pub mod comp2 {
     fn fcps(k: (u8, f64)) -> String { match k.0 { 0 => "I".into(), 1 => format!("v {}", ff(k.1)), _ => "D".into() } }
 
     pub fn exec(func: &str, a: &mut Args) -> String {
+        let exact = super::comp::lattice_args(a);
+        let out = exec0(func, a);
+        if exact { format!("{} ; exact", out) } else { out }
+    }
+    fn exec0(func: &str, a: &mut Args) -> String {
         let c = co(a); let pc = d2::iso(a);
         let gc = dynco(&c);
         let ps = parts(&c, &*gc);
         let d = DefaultQueryDispatcher;
         match func {
+            "composite2_nlcast" => {
+                let x = sh(a); let px = d2::iso(a); let first = a.b();
+                let gx = dynsh(&x);
+                let mc = NonlinearRigidMotion::new(pc, d2::p(a), d2::v(a), a.f());
+                let mx = NonlinearRigidMotion::new(px, d2::p(a), d2::v(a), a.f());
+                let t0 = a.f(); let t1 = a.f(); let stop = a.b();
+                let got = if first { query::cast_shapes_nonlinear(&mc, &*gc, &mx, &*gx, t0, t1, stop) } else { query::cast_shapes_nonlinear(&mx, &*gx, &mc, &*gc, t0, t1, stop) };
+                let got = match got { Ok(v) => v, Err(_) => return "unsupported ; unsupported".into() };
+                let tois: Vec<Option<f64>> = ps.iter().map(|(pp, s)| {
+                    let mp = match pp { Some(pp) => mc.prepend(*pp), None => mc };
+                    d.cast_shapes_nonlinear(&mp, &**s, &mx, &*gx, t0, t1, stop).ok().flatten().map(|h| h.time_of_impact) }).collect();
+                let bf = minf(tois.iter().filter_map(|x| *x));
+                // root-cause qualifier: when the composite misses the earliest part, was it the pruning logic or the pruning
+                // PRIMITIVE?  The visitor masks a lane with the real ball-vs-ball nonlinear cast of the lane box's ball against the
+                // other shape's bounding ball; if for some lane on the path from the root to that part this very cast reports no
+                // impact up to the part's own time of impact, the primitive is not conservative (a defect of
+                // `cast_shapes_nonlinear_support_map_support_map`, property C06); otherwise the traversal lost the part
+                let mut qual = String::new();
+                if let Some(tb) = bf {
+                    if got.map(|h| h.time_of_impact > tb + 1.0e-4 * (1.0 + tb)).unwrap_or(true) {
+                        let i = tois.iter().position(|x| *x == Some(tb)).unwrap();
+                        let sph2 = gx.compute_local_bounding_sphere();
+                        let b2 = Ball::new(sph2.radius());
+                        let m2 = mx.prepend_translation(sph2.center.coords);
+                        // every lane on the path root -> leaf of that part, with the ball the visitor builds for it
+                        let qb = gc.as_composite_shape().unwrap().qbvh();
+                        let (nodes, prox) = (qb.raw_nodes(), qb.raw_proxies());
+                        let mut ni = prox[i].node;
+                        for _ in 0..64 {
+                            let nd = &nodes[ni.index as usize];
+                            let bx = nd.simd_aabb.extract(ni.lane as usize);
+                            let b1 = Ball::new((bx.maxs - bx.mins).norm());
+                            let m1 = mc.prepend_translation(na::center(&bx.mins, &bx.maxs).coords);
+                            let rb = query::details::cast_shapes_nonlinear_support_map_support_map(&d, &m1, &b1, &b1, &m2, &b2, &b2, t0, t1,
+                                query::details::NonlinearShapeCastMode::StopAtPenetration).map(|h| h.time_of_impact);
+                            if rb.map(|x| x > tb + 1.0e-4 * (1.0 + tb)).unwrap_or(true) { qual = " ; primmiss".into(); break; }
+                            if ni.index == 0 { break; }
+                            ni = nd.parent;
+                        }
+                    }
+                }
+                format!("{} ; {} ; lim {}{}", fo(got.map(|h| h.time_of_impact)), fo(bf), ff(t1), qual)
+            }
+            "composite2_aabb" => {
+                // `Qbvh::intersect_aabb` against the closed scalar test on the parts' own boxes
+                let bx = Aabb::new(d2::p(a), d2::p(a));
+                let comp = match gc.as_composite_shape() { Some(c) => c, None => return "unsupported ; unsupported".into() };
+                let mut got: Vec<u32> = Vec::new();
+                comp.qbvh().intersect_aabb(&bx, &mut got);
+                got.sort();
+                let mut bf: Vec<u32> = ps.iter().enumerate().filter(|(_, (pp, s))| match pp { Some(pp) => s.compute_aabb(pp), None => s.compute_local_aabb() }.intersects(&bx)).map(|(i, _)| i as u32).collect();
+                bf.sort();
+                format!("ids {} ; ids {}", got.iter().map(|x| x.to_string()).collect::<Vec<_>>().join(","), bf.iter().map(|x| x.to_string()).collect::<Vec<_>>().join(","))
+            }
             "composite2_distance" | "composite2_it" | "composite2_cp" | "composite2_contact" | "composite2_cast" => {
                 let x = sh(a); let px = d2::iso(a); let first = a.b();
                 let gx = dynsh(&x);
@@ -572,7 +959,9 @@ pub mod comp2 {
                 let got_n = gc.cast_ray_and_get_normal(&pc, &ray, max_toi, solid).map(|i| i.time_of_impact);
                 let ls = ray.inverse_transform_by(&pc);
                 let bf = minf(ps.iter().filter_map(|(pp, s)| match pp { Some(pp) => s.cast_ray(pp, &ls, max_toi, solid), None => s.cast_local_ray(&ls, max_toi, solid) }));
-                format!("{} {} ; {} {} ; lim {}", fo(got), fo(got_n), fo(bf), fo(bf), ff(max_toi))
+                // like with like: the normal-returning composite visitor calls the parts' `cast_ray_and_get_normal`
+                let bf_n = minf(ps.iter().filter_map(|(pp, s)| match pp { Some(pp) => s.cast_ray_and_get_normal(pp, &ls, max_toi, solid), None => s.cast_local_ray_and_get_normal(&ls, max_toi, solid) }.map(|i| i.time_of_impact)));
+                format!("{} {} ; {} {} ; lim {}", fo(got), fo(got_n), fo(bf), fo(bf_n), ff(max_toi))
             }
             "composite2_point" => {
                 let pt = d2::p(a); let solid = a.b();
@@ -600,14 +989,16 @@ pub mod comp2 {
             _ => Sh2::Segment(Point::new(-0.5, 0.0), Point::new(0.5, 0.25)),
         }
     }
-    fn gen_compound(r: &mut Rng, lat: bool) -> Co2 {
+    fn rexact(r: &mut Rng) -> na::UnitComplex<Real> { let (re, im) = *r.pick(&[(1.0, 0.0), (0.0, 1.0), (-1.0, 0.0), (0.0, -1.0)]); na::Unit::new_unchecked(na::Complex::new(re, im)) }
+    fn gen_compound(r: &mut Rng, lat: bool) -> Co2 { gen_compound_x(r, lat, false) }
+    fn gen_compound_x(r: &mut Rng, lat: bool, exact: bool) -> Co2 {
         let n = 5 + r.below(36) as usize;
-        let kind = r.below(6); let layout = r.below(3); let pitch = *r.pick(&[1.5, 2.0, 3.0]);
+        let kind = r.below(6); let layout = r.below(3); let pitch = if exact { *r.pick(&[1.0, 1.5, 2.0]) } else { *r.pick(&[1.5, 2.0, 3.0]) };
         let mut ps = Vec::new();
         for k in 0..n {
             let t = match layout { 0 => Vector::new(pitch * k as f64, 0.0), 1 => Vector::new(pitch * (k % 5) as f64, pitch * (k / 5) as f64), _ => d2::gen_v(r, lat, 10.0) };
             let ql = lat || r.bool();
-            let m = Isometry::from_parts(na::Translation2::from(t), rot(r, ql));
+            let m = Isometry::from_parts(na::Translation2::from(t), if exact { rexact(r) } else { rot(r, ql) });
             let kk = if kind == 5 { r.below(5) } else { kind };
             ps.push((gen_part(r, lat, kk), m));
             if r.below(12) == 0 { let last = ps.last().unwrap().clone(); ps.push(last); }
@@ -655,6 +1046,131 @@ pub mod comp2 {
         Isometry::from_parts(na::Translation2::from(anchor + off + far), rt)
     }
 
+    // ---------------------------------------------------------------- exact touching configurations (lattice)
+    fn part_boxes(c: &Co2) -> Vec<Aabb> {
+        let g = dynco(c);
+        parts(c, &*g).iter().map(|(pp, s)| match pp { Some(pp) => s.compute_aabb(pp), None => s.compute_local_aabb() }).collect()
+    }
+    fn gen_touch_other(r: &mut Rng) -> Sh2 {
+        match r.below(6) {
+            0 => Sh2::Ball(*r.pick(&[0.25, 0.5, 1.0])),
+            1 => Sh2::Cuboid(Vector::new(*r.pick(&[0.5, 1.0, 3.0]), *r.pick(&[0.25, 0.5, 2.0]))),
+            2 => { let mut p = Point::origin(); p[r.below(2) as usize] = *r.pick(&[0.5, 2.0]); Sh2::Capsule(Point::from(-p.coords), p, *r.pick(&[0.25, 0.5])) }
+            3 => loop { let (p, q, s) = (d2::gen_p(r, true, 2.0), d2::gen_p(r, true, 2.0), d2::gen_p(r, true, 2.0));
+                        if (q - p).perp(&(s - p)).abs() > 1e-3 { break Sh2::Triangle(p, q, s); } },
+            4 => loop { let (p, q) = (d2::gen_p(r, true, 2.0), d2::gen_p(r, true, 2.0)); if (q - p).norm() > 1e-3 { break Sh2::Segment(p, q); } },
+            _ => Sh2::Capsule(Point::new(0.5, 0.25), Point::new(1.5, 1.0), 0.25),
+        }
+    }
+    fn touch_pose(r: &mut Rng, pb: &Aabb, x: &Sh2, gap: f64, k: usize, plus: bool) -> Isometry<Real> {
+        let rot = rexact(r);
+        let xb = dynsh(x).compute_aabb(&Isometry::from_parts(na::Translation2::identity(), rot));
+        let mut t = Vector::zeros();
+        for j in 0..2 {
+            t[j] = if j == k { if plus { pb.maxs[j] + gap - xb.mins[j] } else { pb.mins[j] - gap - xb.maxs[j] } }
+                   else { (pb.mins[j] + pb.maxs[j]) * 0.5 - (xb.mins[j] + xb.maxs[j]) * 0.5 + *r.pick(&[-0.5, 0.0, 0.0, 0.25]) };
+        }
+        Isometry::from_parts(na::Translation2::from(t), rot)
+    }
+    pub fn gen_touch(r: &mut Rng, thorough: bool) -> Vec<(String, String)> {
+        let mut v = Vec::new();
+        let n = if thorough { 500 } else { 60 };
+        for _ in 0..n {
+            let c = if r.below(3) == 0 { gen_polyline(r, true) } else { gen_compound_x(r, true, true) };
+            let world = if r.bool() { Isometry::identity() } else { Isometry::from_parts(na::Translation2::from(d2::gen_v(r, true, 8.0)), rexact(r)) };
+            let hc = format!("{} {}", hco(&c), d2::hiso(&world));
+            let boxes = part_boxes(&c);
+            for _ in 0..2 {
+                let x = gen_touch_other(r);
+                let gap = *r.pick(&[0.0, 0.0, 0.25, 0.5]);
+                let pb = boxes[r.below(boxes.len() as u64) as usize];
+                let k = r.below(2) as usize; let plus = r.bool();
+                let rel = touch_pose(r, &pb, &x, gap, k, plus);
+                let hx_ = format!("{} {}", hsh(&x), d2::hiso(&(world * rel)));
+                for first in [true, false] {
+                    let base = format!("{} {} {}", hc, hx_, b(first));
+                    v.push(("composite2_distance".into(), base.clone()));
+                    v.push(("composite2_it".into(), base.clone()));
+                    v.push(("composite2_cp".into(), format!("{} {}", base, hx(gap))));
+                    v.push(("composite2_contact".into(), format!("{} {}", base, hx(gap))));
+                    let mut e = Vector::zeros(); e[k] = if plus { 1.0 } else { -1.0 };
+                    let back = *r.pick(&[0.0, 1.0, 2.0]);
+                    let start = Isometry::from_parts(na::Translation2::from(rel.translation.vector + e * back), rel.rotation);
+                    let mut vel = if r.below(3) == 0 { let mut s = Vector::zeros(); s[(k + 1) % 2] = 1.0; s } else { -e * *r.pick(&[0.5, 1.0, 2.0]) };
+                    if !first { vel = -(start.inverse_transform_vector(&vel)); }
+                    let hs_ = format!("{} {} {} {}", hc, hsh(&x), d2::hiso(&(world * start)), b(first));
+                    v.push(("composite2_cast".into(), format!("{} {} {} {} {}", hs_, d2::hv(&vel), hx(*r.pick(&[1.0, 2.0, 1.0e3])), hx(if r.bool() { gap } else { 0.0 }), b(r.bool()))));
+                }
+            }
+            for _ in 0..3 {
+                let pb = boxes[r.below(boxes.len() as u64) as usize];
+                let k = r.below(2) as usize; let plus = r.bool();
+                let ctr = na::center(&pb.mins, &pb.maxs);
+                let mut pt = ctr; for j in 0..2 { pt[j] = *r.pick(&[pb.mins[j], ctr[j], pb.maxs[j]]); }
+                v.push(("composite2_point".into(), format!("{} {} {}", hc, d2::hp(&(world * pt)), b(r.bool()))));
+                let he = Vector::new(*r.pick(&[0.25, 0.5, 1.0, 4.0]), *r.pick(&[0.25, 0.5, 1.0, 4.0]));
+                let mut cq = ctr; for j in 0..2 { if j != k { cq[j] += *r.pick(&[-0.5, 0.0, 0.25]); } }
+                cq[k] = if plus { pb.maxs[k] + he[k] } else { pb.mins[k] - he[k] };
+                v.push(("composite2_aabb".into(), format!("{} {} {}", hc, d2::hp(&(cq - he)), d2::hp(&(cq + he)))));
+                let j = (k + 1) % 2;
+                let mut org = ctr; org[k] = if plus { pb.maxs[k] } else { pb.mins[k] }; org[j] = pb.mins[j] - 2.0;
+                let mut dir = Vector::zeros(); dir[j] = *r.pick(&[0.5, 1.0, 2.0]);
+                if r.bool() { org = ctr; org[k] = if plus { pb.maxs[k] + 2.0 } else { pb.mins[k] - 2.0 }; dir = Vector::zeros(); dir[k] = if plus { -1.0 } else { 1.0 }; }
+                v.push(("composite2_ray".into(), format!("{} {} {} {} {}", hc, d2::hp(&(world * org)), d2::hv(&(world * dir)), hx(*r.pick(&[2.0, 4.0, 1.0e3])), b(r.bool()))));
+            }
+            // random (non-touching) query boxes as well: the 2-D enumeration had no family at all
+            let bx = dynco(&c).compute_local_aabb();
+            for _ in 0..2 {
+                let cq = Point::new(r.uniform(bx.mins.x, bx.maxs.x), r.uniform(bx.mins.y, bx.maxs.y));
+                let he = d2::gen_he(r, false) * 0.25;
+                v.push(("composite2_aabb".into(), format!("{} {} {}", hc, d2::hp(&(cq - he)), d2::hp(&(cq + he)))));
+            }
+        }
+        v
+    }
+
+    // ---------------------------------------------------------------- nonlinear casts
+    pub fn gen_nlcast(r: &mut Rng, thorough: bool) -> Vec<(String, String)> {
+        let mut v = Vec::new();
+        let n = if thorough { 400 } else { 50 };
+        for it in 0..n {
+            let lat = it % 2 == 0;
+            let c = match it % 3 { 0 => gen_compound(r, lat), 1 => gen_compound_x(r, true, true), _ => gen_polyline(r, lat) };
+            let world = if r.below(3) == 0 { Isometry::identity() } else { d2::gen_iso(r, lat, 20.0) };
+            let hc = format!("{} {}", hco(&c), d2::hiso(&world));
+            let boxes = part_boxes(&c);
+            for _ in 0..2 {
+                let x = match r.below(5) { 0 => Sh2::Ball(*r.pick(&[0.25, 0.5])), 1 => Sh2::Cuboid(d2::gen_he(r, true) * 0.5),
+                                           2 => Sh2::Capsule(Point::new(1.0, 0.5), Point::new(2.0, 1.0), 0.25),
+                                           3 => { let o = d2::gen_v(r, true, 2.0); Sh2::Triangle(Point::from(o), Point::from(o + Vector::new(0.5, 0.0)), Point::from(o + Vector::new(0.0, 0.5))) }
+                                           _ => { let o = d2::gen_v(r, true, 2.0); Sh2::Segment(Point::from(o), Point::from(o + Vector::new(0.25, 0.5))) } };
+                let gx = dynsh(&x);
+                let rt = if r.below(3) == 0 { na::UnitComplex::identity() } else { rot(r, lat) };
+                let pb = boxes[r.below(boxes.len() as u64) as usize];
+                let ctr = na::center(&pb.mins, &pb.maxs);
+                let xb = gx.compute_local_aabb(); let xc = na::center(&xb.mins, &xb.maxs);
+                let mut dirv = d2::gen_v(r, lat, 1.0); if dirv.norm() < 1e-3 { dirv = Vector::new(0.0, 1.0); }
+                let dirv = dirv.normalize();
+                let dist = *r.pick(&[2.0, 3.0, 5.0]);
+                let t = ctr.coords + dirv * dist - rt * xc.coords;
+                let rel = Isometry::from_parts(na::Translation2::from(t), rt);
+                let px = world * rel;
+                let t1: f64 = *r.pick(&[1.0, 2.0, 10.0]);
+                let linx = world * (-dirv * (dist / *r.pick(&[0.5, 1.0, 1.5])) / t1.min(2.0)) + d2::gen_v(r, lat, 0.1);
+                let angx = if r.bool() { 0.0 } else { r.coord(lat, 1.0) * 0.25 };
+                let lcx = if r.bool() { Point::origin() } else { xc };
+                let (linc, angc, lcc) = match r.below(3) { 0 => (Vector::zeros(), 0.0, Point::origin()),
+                    1 => (d2::gen_v(r, lat, 0.5), 0.0, Point::origin()),
+                    _ => (d2::gen_v(r, lat, 0.25), r.coord(lat, 1.0) * 0.0625, ctr) };
+                for first in [true, false] {
+                    v.push(("composite2_nlcast".into(), format!("{} {} {} {} {} {} {} {} {} {} {} {} {}", hc, hsh(&x), d2::hiso(&px), b(first),
+                        d2::hp(&lcc), d2::hv(&linc), hx(angc), d2::hp(&lcx), d2::hv(&linx), hx(angx), hx(0.0), hx(t1), b(r.bool()))));
+                }
+            }
+        }
+        v
+    }
+
     pub fn gen(r: &mut Rng, thorough: bool) -> Vec<(String, String)> {
         let mut v = Vec::new();
         let n = if thorough { 600 } else { 80 };
@@ -696,6 +1212,188 @@ pub mod comp2 {
                 let pt = if r.bool() { tgt } else { tgt + d2::gen_v(r, lat, 4.0) };
                 v.push(("composite2_point".into(), format!("{} {} {}", hc, d2::hp(&(world * pt)), b(r.bool()))));
             }
+        }
+        v
+    }
+}
+
+/// the lane tests of `SimdAabb` used by the composite-shape visitors and `NonlinearRigidMotion`, 3-D (`lane3_*`, `nl3_*`)
+pub mod lanes3 {
+    use crate::util::*;
+    use crate::p3::bounding_volume::{Aabb, SimdAabb};
+    use crate::p3::math::{SimdBool, SimdReal};
+    use crate::p3::query::{NonlinearRigidMotion, Ray, SimdRay};
+    use crate::p3::simba::simd::SimdValue;
+    use d3::{Isometry, Point, Real, Vector, na};
+
+    fn aabb(a: &mut Args) -> Aabb { Aabb::new(d3::p(a), d3::p(a)) }
+    fn haabb(b: &Aabb) -> String { format!("{} {}", d3::hp(&b.mins), d3::hp(&b.maxs)) }
+    fn simd(a: &mut Args) -> SimdAabb { SimdAabb::from([aabb(a), aabb(a), aabb(a), aabb(a)]) }
+    fn fmask(m: SimdBool) -> String { (0..4).map(|i| b(m.extract(i))).collect::<Vec<_>>().join(" ") }
+    fn motion(a: &mut Args) -> NonlinearRigidMotion { NonlinearRigidMotion::new(d3::iso(a), d3::p(a), d3::v(a), d3::v(a)) }
+    fn hmotion(m: &NonlinearRigidMotion) -> String { format!("{} {} {} {}", d3::hiso(&m.start), d3::hp(&m.local_center), d3::hv(&m.linvel), d3::hv(&m.angvel)) }
+    fn fiso(m: &Isometry<Real>) -> String { format!("{} {} {} {} {}", ff(m.rotation.i), ff(m.rotation.j), ff(m.rotation.k), ff(m.rotation.w), d3::fv(&m.translation.vector)) }
+
+    pub fn exec(func: &str, a: &mut Args) -> String {
+        match func {
+            "lane3_intersects" => { let x = simd(a); let y = simd(a); fmask(x.intersects(&y)) }
+            "lane3_point" => { let x = simd(a); let p = d3::p(a); fmask(x.contains_local_point(&Point::splat(p))) }
+            "lane3_dist" => { let x = simd(a); let p = d3::p(a);
+                let d = x.distance_to_local_point(&Point::splat(p)); let o = x.distance_to_origin();
+                (0..4).map(|i| ff(d.extract(i))).chain((0..4).map(|i| ff(o.extract(i)))).collect::<Vec<_>>().join(" ") }
+            "lane3_ray" => { let x = simd(a); let ray = Ray::new(d3::p(a), d3::v(a)); let mt = a.f();
+                let (hit, tmin) = x.cast_local_ray(&SimdRay::splat(ray), SimdReal::splat(mt));
+                (0..4).map(|i| format!("{} {}", b(hit.extract(i)), ff(tmin.extract(i)))).collect::<Vec<_>>().join(" ") }
+            "nl3_set" => { let m = motion(a); let k = a.u(); let tra = d3::v(a); let iso = d3::iso(a);
+                let r = match k { 0 => m.append_translation(tra), 1 => m.prepend_translation(tra), 2 => m.append(iso), _ => m.prepend(iso) };
+                format!("{} {}", fiso(&r.start), d3::fp(&r.local_center)) }
+            "nl3_pos" => { let m = motion(a); let t = a.f(); fiso(&m.position_at_time(t)) }
+            _ => "nofn".into(),
+        }
+    }
+
+    fn gen_box(r: &mut Rng, lat: bool) -> Aabb {
+        let c = d3::gen_p(r, lat, 10.0); let he = d3::gen_he(r, lat) * *r.pick(&[0.25, 1.0]);
+        if r.below(10) == 0 { Aabb::new(c, c) } else { Aabb::new(c - he, c + he) }
+    }
+    /// a box that touches / overlaps / misses `x` by lattice amounts on a chosen side of every axis
+    fn near_box(r: &mut Rng, lat: bool, x: &Aabb) -> Aabb {
+        let mut y = gen_box(r, lat);
+        let he = (y.maxs - y.mins) * 0.5;
+        let mut c = na::center(&x.mins, &x.maxs);
+        for k in 0..3 {
+            let gap = *r.pick(&[0.0, 0.0, 0.0, -0.25, 0.25]);
+            match r.below(4) { 0 => c[k] = x.maxs[k] + he[k] + gap, 1 => c[k] = x.mins[k] - he[k] - gap, _ => c[k] += *r.pick(&[-0.5, 0.0, 0.25]) }
+        }
+        y.mins = c - he; y.maxs = c + he; y
+    }
+    pub fn gen(r: &mut Rng, thorough: bool) -> Vec<(String, String)> {
+        let mut v = Vec::new();
+        let n = if thorough { 2000 } else { 250 };
+        for it in 0..n {
+            let lat = it % 2 == 0;
+            let xs: Vec<Aabb> = (0..4).map(|_| gen_box(r, lat)).collect();
+            let ys: Vec<Aabb> = xs.iter().map(|x| if r.below(4) == 0 { gen_box(r, lat) } else { near_box(r, lat, x) }).collect();
+            let sx = xs.iter().map(haabb).collect::<Vec<_>>().join(" ");
+            let sy = ys.iter().map(haabb).collect::<Vec<_>>().join(" ");
+            // both orders: `self` is the node box for the enumeration / contact visitors, the query box for the intersection-test visitor
+            v.push(("lane3_intersects".into(), format!("{} {}", sx, sy)));
+            v.push(("lane3_intersects".into(), format!("{} {}", sy, sx)));
+            // points on faces / edges / corners of a lane box, or anywhere
+            let x0 = xs[r.below(4) as usize]; let c0 = na::center(&x0.mins, &x0.maxs);
+            let mut p = c0; for k in 0..3 { p[k] = *r.pick(&[x0.mins[k], c0[k], x0.maxs[k], x0.maxs[k] + 0.25, x0.mins[k] - 0.25]); }
+            let p = if r.below(4) == 0 { d3::gen_p(r, lat, 10.0) } else { p };
+            v.push(("lane3_point".into(), format!("{} {}", sx, d3::hp(&p))));
+            v.push(("lane3_dist".into(), format!("{} {}", sx, d3::hp(&p))));
+            // rays: axis-parallel grazing a face, towards a corner, reaching the box exactly at max_toi, zero components, random
+            let k = r.below(3 as u64) as usize; let j = (k + 1) % 3;
+            let (org, dir, mt) = match r.below(5) {
+                0 => { let mut o = c0; o[k] = if r.bool() { x0.maxs[k] } else { x0.mins[k] }; o[j] = x0.mins[j] - 2.0; let mut d = Vector::zeros(); d[j] = *r.pick(&[0.5, 1.0, 2.0]); (o, d, *r.pick(&[1.0, 2.0, 4.0, 1.0e3])) }
+                1 => { let mut o = c0; o[k] = x0.maxs[k] + 2.0; let mut d = Vector::zeros(); d[k] = *r.pick(&[-1.0, -2.0, 1.0]); (o, d, *r.pick(&[1.0, 2.0, 4.0])) }
+                2 => { let tgt = Point::from(x0.maxs.coords); let o = tgt + Vector::repeat(2.0); (o, (tgt - o) * *r.pick(&[0.5, 1.0]), *r.pick(&[1.0, 2.0, 1.0e3])) }
+                3 => { let o = c0; (o, d3::gen_v(r, lat, 1.0), *r.pick(&[0.0, 1.0])) }
+                _ => { let o = d3::gen_p(r, lat, 10.0); let tgt = c0 + d3::gen_v(r, lat, 1.0); let mut d = tgt - o; if r.below(3) == 0 { d[k] = 0.0; } (o, d, *r.pick(&[0.5, 1.0, 1.0e3])) }
+            };
+            v.push(("lane3_ray".into(), format!("{} {} {} {}", sx, d3::hp(&org), d3::hv(&dir), hx(mt))));
+            // motions
+            let m = NonlinearRigidMotion::new(d3::gen_iso(r, lat, 10.0), if r.below(3) == 0 { Point::origin() } else { d3::gen_p(r, lat, 4.0) }, d3::gen_v(r, lat, 2.0), if r.bool() { Vector::zeros() } else { d3::gen_v(r, lat, 1.0) });
+            let tra = d3::gen_v(r, lat, 4.0); let iso = d3::gen_iso(r, lat, 4.0);
+            v.push(("nl3_set".into(), format!("{} {} {} {}", hmotion(&m), r.below(4), d3::hv(&tra), d3::hiso(&iso))));
+            let t = *r.pick(&[0.0, 0.5, 1.0, 3.0]);
+            // the rotation part of `Isometry::new(linvel * t, angvel * t)` (the exponential map is not modelled) travels with the case
+            let mm = Isometry::new(m.linvel * t, m.angvel * t);
+            v.push(("nl3_pos".into(), format!("{} {} {}", hmotion(&m), hx(t), format!("{} {} {} {}", hx(mm.rotation.i), hx(mm.rotation.j), hx(mm.rotation.k), hx(mm.rotation.w)))));
+        }
+        v
+    }
+}
+
+/// the lane tests of `SimdAabb` used by the composite-shape visitors and `NonlinearRigidMotion`, 2-D (`lane2_*`, `nl2_*`)
+pub mod lanes2 {
+    use crate::util::*;
+    use crate::p2::bounding_volume::{Aabb, SimdAabb};
+    use crate::p2::math::{SimdBool, SimdReal};
+    use crate::p2::query::{NonlinearRigidMotion, Ray, SimdRay};
+    use crate::p2::simba::simd::SimdValue;
+    use d2::{Isometry, Point, Real, Vector, na};
+
+    fn aabb(a: &mut Args) -> Aabb { Aabb::new(d2::p(a), d2::p(a)) }
+    fn haabb(b: &Aabb) -> String { format!("{} {}", d2::hp(&b.mins), d2::hp(&b.maxs)) }
+    fn simd(a: &mut Args) -> SimdAabb { SimdAabb::from([aabb(a), aabb(a), aabb(a), aabb(a)]) }
+    fn fmask(m: SimdBool) -> String { (0..4).map(|i| b(m.extract(i))).collect::<Vec<_>>().join(" ") }
+    fn motion(a: &mut Args) -> NonlinearRigidMotion { NonlinearRigidMotion::new(d2::iso(a), d2::p(a), d2::v(a), a.f()) }
+    fn hmotion(m: &NonlinearRigidMotion) -> String { format!("{} {} {} {}", d2::hiso(&m.start), d2::hp(&m.local_center), d2::hv(&m.linvel), hx(m.angvel)) }
+    fn fiso(m: &Isometry<Real>) -> String { format!("{} {} {}", ff(m.rotation.re), ff(m.rotation.im), d2::fv(&m.translation.vector)) }
+
+    pub fn exec(func: &str, a: &mut Args) -> String {
+        match func {
+            "lane2_intersects" => { let x = simd(a); let y = simd(a); fmask(x.intersects(&y)) }
+            "lane2_point" => { let x = simd(a); let p = d2::p(a); fmask(x.contains_local_point(&Point::splat(p))) }
+            "lane2_dist" => { let x = simd(a); let p = d2::p(a);
+                let d = x.distance_to_local_point(&Point::splat(p)); let o = x.distance_to_origin();
+                (0..4).map(|i| ff(d.extract(i))).chain((0..4).map(|i| ff(o.extract(i)))).collect::<Vec<_>>().join(" ") }
+            "lane2_ray" => { let x = simd(a); let ray = Ray::new(d2::p(a), d2::v(a)); let mt = a.f();
+                let (hit, tmin) = x.cast_local_ray(&SimdRay::splat(ray), SimdReal::splat(mt));
+                (0..4).map(|i| format!("{} {}", b(hit.extract(i)), ff(tmin.extract(i)))).collect::<Vec<_>>().join(" ") }
+            "nl2_set" => { let m = motion(a); let k = a.u(); let tra = d2::v(a); let iso = d2::iso(a);
+                let r = match k { 0 => m.append_translation(tra), 1 => m.prepend_translation(tra), 2 => m.append(iso), _ => m.prepend(iso) };
+                format!("{} {}", fiso(&r.start), d2::fp(&r.local_center)) }
+            "nl2_pos" => { let m = motion(a); let t = a.f(); fiso(&m.position_at_time(t)) }
+            _ => "nofn".into(),
+        }
+    }
+
+    fn gen_box(r: &mut Rng, lat: bool) -> Aabb {
+        let c = d2::gen_p(r, lat, 10.0); let he = d2::gen_he(r, lat) * *r.pick(&[0.25, 1.0]);
+        if r.below(10) == 0 { Aabb::new(c, c) } else { Aabb::new(c - he, c + he) }
+    }
+    /// a box that touches / overlaps / misses `x` by lattice amounts on a chosen side of every axis
+    fn near_box(r: &mut Rng, lat: bool, x: &Aabb) -> Aabb {
+        let mut y = gen_box(r, lat);
+        let he = (y.maxs - y.mins) * 0.5;
+        let mut c = na::center(&x.mins, &x.maxs);
+        for k in 0..2 {
+            let gap = *r.pick(&[0.0, 0.0, 0.0, -0.25, 0.25]);
+            match r.below(4) { 0 => c[k] = x.maxs[k] + he[k] + gap, 1 => c[k] = x.mins[k] - he[k] - gap, _ => c[k] += *r.pick(&[-0.5, 0.0, 0.25]) }
+        }
+        y.mins = c - he; y.maxs = c + he; y
+    }
+    pub fn gen(r: &mut Rng, thorough: bool) -> Vec<(String, String)> {
+        let mut v = Vec::new();
+        let n = if thorough { 2000 } else { 250 };
+        for it in 0..n {
+            let lat = it % 2 == 0;
+            let xs: Vec<Aabb> = (0..4).map(|_| gen_box(r, lat)).collect();
+            let ys: Vec<Aabb> = xs.iter().map(|x| if r.below(4) == 0 { gen_box(r, lat) } else { near_box(r, lat, x) }).collect();
+            let sx = xs.iter().map(haabb).collect::<Vec<_>>().join(" ");
+            let sy = ys.iter().map(haabb).collect::<Vec<_>>().join(" ");
+            // both orders: `self` is the node box for the enumeration / contact visitors, the query box for the intersection-test visitor
+            v.push(("lane2_intersects".into(), format!("{} {}", sx, sy)));
+            v.push(("lane2_intersects".into(), format!("{} {}", sy, sx)));
+            // points on faces / edges / corners of a lane box, or anywhere
+            let x0 = xs[r.below(4) as usize]; let c0 = na::center(&x0.mins, &x0.maxs);
+            let mut p = c0; for k in 0..2 { p[k] = *r.pick(&[x0.mins[k], c0[k], x0.maxs[k], x0.maxs[k] + 0.25, x0.mins[k] - 0.25]); }
+            let p = if r.below(4) == 0 { d2::gen_p(r, lat, 10.0) } else { p };
+            v.push(("lane2_point".into(), format!("{} {}", sx, d2::hp(&p))));
+            v.push(("lane2_dist".into(), format!("{} {}", sx, d2::hp(&p))));
+            // rays: axis-parallel grazing a face, towards a corner, reaching the box exactly at max_toi, zero components, random
+            let k = r.below(2 as u64) as usize; let j = (k + 1) % 2;
+            let (org, dir, mt) = match r.below(5) {
+                0 => { let mut o = c0; o[k] = if r.bool() { x0.maxs[k] } else { x0.mins[k] }; o[j] = x0.mins[j] - 2.0; let mut d = Vector::zeros(); d[j] = *r.pick(&[0.5, 1.0, 2.0]); (o, d, *r.pick(&[1.0, 2.0, 4.0, 1.0e3])) }
+                1 => { let mut o = c0; o[k] = x0.maxs[k] + 2.0; let mut d = Vector::zeros(); d[k] = *r.pick(&[-1.0, -2.0, 1.0]); (o, d, *r.pick(&[1.0, 2.0, 4.0])) }
+                2 => { let tgt = Point::from(x0.maxs.coords); let o = tgt + Vector::repeat(2.0); (o, (tgt - o) * *r.pick(&[0.5, 1.0]), *r.pick(&[1.0, 2.0, 1.0e3])) }
+                3 => { let o = c0; (o, d2::gen_v(r, lat, 1.0), *r.pick(&[0.0, 1.0])) }
+                _ => { let o = d2::gen_p(r, lat, 10.0); let tgt = c0 + d2::gen_v(r, lat, 1.0); let mut d = tgt - o; if r.below(3) == 0 { d[k] = 0.0; } (o, d, *r.pick(&[0.5, 1.0, 1.0e3])) }
+            };
+            v.push(("lane2_ray".into(), format!("{} {} {} {}", sx, d2::hp(&org), d2::hv(&dir), hx(mt))));
+            // motions
+            let m = NonlinearRigidMotion::new(d2::gen_iso(r, lat, 10.0), if r.below(3) == 0 { Point::origin() } else { d2::gen_p(r, lat, 4.0) }, d2::gen_v(r, lat, 2.0), if r.bool() { 0.0 } else { r.coord(lat, 1.0) });
+            let tra = d2::gen_v(r, lat, 4.0); let iso = d2::gen_iso(r, lat, 4.0);
+            v.push(("nl2_set".into(), format!("{} {} {} {}", hmotion(&m), r.below(4), d2::hv(&tra), d2::hiso(&iso))));
+            let t = *r.pick(&[0.0, 0.5, 1.0, 3.0]);
+            // the rotation part of `Isometry::new(linvel * t, angvel * t)` (the exponential map is not modelled) travels with the case
+            let mm = Isometry::new(m.linvel * t, m.angvel * t);
+            v.push(("nl2_pos".into(), format!("{} {} {}", hmotion(&m), hx(t), format!("{} {}", hx(mm.rotation.re), hx(mm.rotation.im)))));
         }
         v
     }
